@@ -14,7 +14,7 @@ been written at the append position of the tx log. -/
 theorem replicate_buffer_full (hs : Hs D) (st : RSt D) (b : Bytes) (skip : Bool) (p : Parsed) (r : RRec D)
     (hp : parseExported b = .ok p) (hok : precommit hs st p skip = .ok r) (hfull : st.pre.length ≥ st.bufCap) :
     (replicate hs st b skip).out = .error .bufferFull ∧
-    (replicate hs st b skip).st = { st with ghost := some r, poolBlRoot := r.hdr.blRoot } := by
+    (replicate hs st b skip).st = { st with ghost := some r } := by
   unfold replicate
   rw [hp]
   simp only [hok]
